@@ -4,6 +4,7 @@
 -/
 import IpfixModel.Lemmas.Collector
 import IpfixModel.Lemmas.CollectorExact
+import IpfixModel.Lemmas.Unknown
 import IpfixModel.Model.Registry
 import IpfixModel.Spec.C03
 namespace Ipfix.C03
@@ -141,6 +142,29 @@ theorem decode_exact {mode : Mode} {tpl : Template} {body : Bytes} {recs : List 
     induction hsl with
     | done hlt => exact hlt
     | cons _ _ ih => exact ih
+
+/-- C03, exactness (completeness half): conversely, a body that IS the concatenation of complete
+    records followed by padding shorter than the shortest record is not rejected and yields exactly
+    those records - so the decoder accepts precisely the bodies the independent reading of RFC 7011
+    describes (given decodable payloads), and the slicing is unique. -/
+theorem decode_complete {tpl : Template} (hmin : 0 < minRecordLen tpl) {body : Bytes}
+    {raw : List (List Bytes)} {pad : Bytes} (hs : Slices tpl body raw pad) {vals : List (List Value)}
+    (hd : raw.map (decodePayloads .keep tpl) = vals.map Outcome.ok) :
+    decodeRecords .keep tpl body = .ok vals := by
+  unfold decodeRecords
+  rw [if_neg (by omega)]
+  exact decodeRecordsFuel_complete hmin hs hd _ (by omega)
+
+/-- two slicings of the same body into complete records with decodable payloads deliver the same
+    values: the reading is unambiguous -/
+theorem slicing_unambiguous {tpl : Template} (hmin : 0 < minRecordLen tpl) {body : Bytes}
+    {raw raw' : List (List Bytes)} {pad pad' : Bytes} (hs : Slices tpl body raw pad) (hs' : Slices tpl body raw' pad')
+    {vals vals' : List (List Value)} (hd : raw.map (decodePayloads .keep tpl) = vals.map Outcome.ok)
+    (hd' : raw'.map (decodePayloads .keep tpl) = vals'.map Outcome.ok) : vals = vals' := by
+  have h1 := decode_complete hmin hs hd
+  have h2 := decode_complete hmin hs' hd'
+  rw [h1] at h2
+  exact Outcome.ok.inj h2
 
 /-- the registry returns the element that was asked for -/
 def LookupFaithful (lookup : Nat → Nat → Option IE) : Prop :=
